@@ -13,7 +13,8 @@ import (
 
 func runC05(rc *sim.RunCtx) {
 	h, err := NewHist(rc, HistOpts{Profiles: []string{"core", "core", "presence"}, MinTx: 1, MaxTx: 6,
-		Oracles: map[string]bool{"C01": true, "C02": true}})
+		DevKinds: []string{"direct", "direct", "gnmi-json", "gnmi-json_ietf"},
+		Oracles:  map[string]bool{"C01": true, "C02": true}})
 	if err != nil {
 		rc.HarnessErr("world: %v", err)
 		return
